@@ -376,6 +376,73 @@ fn descriptor_update_params() -> J {
     }})
 }
 
+/// Strings a handler must not join onto a path. Bounded by the string guard: at most 6
+/// parent-like components, absolute only through `{S}` (= the fixture directory inside the
+/// scratch moat, filled in when the line is built).
+pub const PATHY: &[&str] = &[
+    "../zqesc1",
+    "../../zqesc2",
+    "..\\zqesc3",
+    " ../zqesc4 ",
+    "{S}/zqabs5",
+    "%2e%2e/zqesc6",
+    "zqsub/../../zqesc7",
+    "../../../../../../zqdeep8",
+    "..",
+];
+
+/// Requests whose string parameters look like paths: every string member of every valid
+/// parameter object replaced by every `PATHY` string, and the nested strings of the HMI
+/// descriptor (page id - the handler derives a file name from it - title, icon, kind, svg).
+pub fn path_param_cases(cfg: super::fixture::Cfg, types: &[String]) -> Vec<GroupCase> {
+    let creds = [Cred::Viewer, Cred::Engineer, Cred::Admin];
+    let mut out = Vec::new();
+    let mut seen = BTreeSet::new();
+    for ty in types {
+        for base in valid_params(ty).into_iter().flatten() {
+            let J::Object(m) = base else { continue };
+            for (k, v) in &m {
+                if !v.is_string() {
+                    continue;
+                }
+                for p in PATHY {
+                    let mut mm = m.clone();
+                    mm.insert(k.clone(), json!(p));
+                    let j = J::Object(mm);
+                    if seen.insert(format!("{ty}|{j}")) {
+                        out.push(grp(cfg, ty, "path_like", Some(j), None, &creds));
+                    }
+                }
+            }
+        }
+    }
+    for p in PATHY {
+        let mut d = descriptor_update_params();
+        d["descriptor"]["pages"][0]["id"] = json!(p);
+        out.push(grp(cfg, "hmi.descriptor.update", "path_like_page_id", Some(d), None, &creds));
+        // a second page next to a harmless one
+        let mut d = descriptor_update_params();
+        let mut second = d["descriptor"]["pages"][0].clone();
+        second["id"] = json!(p);
+        second["order"] = json!(1);
+        d["descriptor"]["pages"].as_array_mut().unwrap().push(second);
+        out.push(grp(cfg, "hmi.descriptor.update", "path_like_page_id", Some(d), None, &creds));
+    }
+    for field in ["title", "icon", "kind", "svg"] {
+        for p in &PATHY[..5] {
+            let mut d = descriptor_update_params();
+            d["descriptor"]["pages"][0][field] = json!(p);
+            out.push(grp(cfg, "hmi.descriptor.update", "path_like_page_field", Some(d), None, &creds));
+        }
+    }
+    for p in &PATHY[..5] {
+        let mut d = descriptor_update_params();
+        d["descriptor"]["config"]["theme"]["style"] = json!(p);
+        out.push(grp(cfg, "hmi.descriptor.update", "path_like_page_field", Some(d), None, &creds));
+    }
+    out
+}
+
 /// Valid parameter variants per request type; the first is the one used when a single
 /// representative is needed. Chosen so that a served request has a visible effect on the
 /// fixture's baseline state wherever the request can have one.
@@ -507,6 +574,25 @@ pub fn shape_params(ty: &str, shape: &str, r: &mut Reader) -> Option<J> {
             }
             _ => Some(json!({"role": "admin", "control.auth_token": "sneaky", "log.level": "trace"})),
         },
+        "path_like" => {
+            let p = PATHY[r.pick(PATHY.len())];
+            if ty == "hmi.descriptor.update" {
+                let mut d = descriptor_update_params();
+                let field = ["id", "id", "id", "title", "icon", "kind", "svg"][r.pick(7)];
+                d["descriptor"]["pages"][0][field] = json!(p);
+                Some(d)
+            } else {
+                match base {
+                    Some(J::Object(mut m)) if !m.is_empty() => {
+                        let keys: Vec<String> = m.keys().cloned().collect();
+                        let k = keys[r.pick(keys.len())].clone();
+                        m.insert(k, json!(p));
+                        Some(J::Object(m))
+                    }
+                    _ => Some(json!({"id": p, "path": p, "source": p, "style": p})),
+                }
+            }
+        }
         "respelt" => match base {
             Some(J::Object(mut m)) if !m.is_empty() => {
                 let keys: Vec<String> = m.keys().cloned().collect();
@@ -710,7 +796,13 @@ pub fn config_spelling_cases(cfg: super::fixture::Cfg, key: &str, thorough: bool
         return out;
     }
     let ks = serde_json::to_string(key).unwrap();
-    let vs = v.to_string();
+    // textual requests are not run through the placeholder filler
+    let concrete = match &v {
+        J::String(t) if t == "$OTHERMODE" => json!(if cfg.mode_debug { "production" } else { "debug" }),
+        J::String(t) if t == "$OTHERDEBUG" => json!(!cfg.debug_enabled),
+        other => other.clone(),
+    };
+    let vs = concrete.to_string();
     let (head, tail) = key.split_once('.').unwrap_or((key, ""));
     // structure instead of spelling
     out.push(grp(cfg, "config.set", "key_nested", Some(json!({head: {tail: v.clone()}})), None, ROLE_CREDS));
@@ -718,7 +810,14 @@ pub fn config_spelling_cases(cfg: super::fixture::Cfg, key: &str, thorough: bool
     out.push(grp(cfg, "config.set", "key_nested", Some(json!({"config": {key: v.clone()}})), None, ROLE_CREDS));
     out.push(grp(cfg, "config.set", "value_array", Some(json!({key: [v.clone()]})), None, ROLE_CREDS));
     out.push(grp(cfg, "config.set", "params_array", Some(json!([[key, v.clone()]])), None, ROLE_CREDS));
-    out.push(grp(cfg, "config.set", "params_string", Some(json!(format!("{{{ks}:{vs}}}"))), None, ROLE_CREDS));
+    out.push(grp(
+        cfg,
+        "config.set",
+        "params_string",
+        Some(json!(format!("{{{ks}:{vs}}}").replace('$', "zq"))),
+        None,
+        ROLE_CREDS,
+    ));
     // duplicated members (what the request parser keeps is its business; gate and handler
     // must agree on it)
     let raws = [
@@ -793,7 +892,7 @@ pub fn value_spelling_cases(cfg: super::fixture::Cfg, ty: &str) -> Vec<GroupCase
 }
 
 pub const SHAPES: &[&str] = &[
-    "valid", "missing", "null", "wrong_typed", "non_object", "extra_fields", "huge", "nested", "respelt",
+    "valid", "missing", "null", "wrong_typed", "non_object", "extra_fields", "huge", "nested", "respelt", "path_like",
 ];
 
 /// Unknown / garbled / case-varied / padded variants of a request type.
@@ -888,7 +987,7 @@ pub fn group_from_tape(r: &mut Reader, types: &[String]) -> GroupCase {
         1 => (garble_type(&base_ty, r.pick(14)), base_ty),
         _ => (UNKNOWN_TYPES[r.pick(UNKNOWN_TYPES.len())].to_string(), base_ty),
     };
-    let shape = SHAPES[r.weighted(&[8, 2, 1, 5, 2, 2, 1, 2, 4])];
+    let shape = SHAPES[r.weighted(&[8, 2, 1, 5, 2, 2, 1, 2, 4, 2])];
     let params = shape_params(&schema_of, shape, r);
     let extra = match r.weighted(&[10, 1, 1, 1]) {
         0 => None,
@@ -935,6 +1034,10 @@ pub fn line_from_tape(r: &mut Reader, types: &[String]) -> LineCase {
     if r.flag() {
         obj.insert("auth".into(), json!(super::fixture::ADMIN_TOKEN));
     }
+    // placeholders are not filled in on this path: make them plain words
+    let obj: serde_json::Map<String, J> =
+        serde_json::from_str(&J::Object(obj).to_string().replace('$', "zq")).unwrap_or_default();
+    let mut obj = obj;
     let good = serde_json::to_vec(&J::Object(obj.clone())).unwrap();
     let (class, bytes): (&str, Vec<u8>) = match r.pick(16) {
         0 => ("truncated", truncate_at(&good, 1 + r.pick(good.len().saturating_sub(1).max(1)))),
